@@ -110,50 +110,62 @@ def r1_operator_tables(rule, root=None):
         rule.ok("register_binary_fns registers both overloads under the same operator")
     else:
         rule.bad("macro|reg-bin", "register_binary_fns must register $name::tree_dyn and $name::dyn_tree under $op", A.where(reg))
-    # comparison ban
-    loops = [l for l in A.find(reg["body"], "For") if "bad_cmp" in txt(l["body"])]
-    if len(loops) != 1:
-        rule.lost("the comparison-ban loop in tree::register")
+    # comparison ban: every comparison operator is registered to rejecting functions covering (Tree, other) and
+    # (other, Tree); read from the registrations themselves, however the loop and the functions are spelled
+    regs = []
+    for c in A.find(reg["body"], "MethodCall"):
+        if c["method"] == "register_fn" and len(c["args"]) == 2:
+            ref = A.unparse(c["args"][1]).replace(" ", "")
+            if ref.split("::")[0].startswith("bad_cmp"):
+                regs.append((c, ref))
+    if not regs:
+        rule.lost("the comparison-ban registrations in tree::register")
     else:
-        arr = A.strip(loops[0]["iter"])
-        while arr.get("k") in ("Ref", "Paren") or (arr.get("k") == "MethodCall" and arr["method"] in ("iter", "into_iter", "copied", "cloned")):
-            arr = A.strip(arr["e"] if "e" in arr else arr["recv"])
-        if arr.get("k") == "Path" and A.ident(arr):
-            # a named table: `const BANNED: [&str; 6] = [..];`
-            for it in A.load(TREE, root).get("items", []):
-                if it.get("k") in ("Const", "Static") and it.get("name") == A.ident(arr) and it.get("e") is not None:
-                    arr = A.strip(it["e"])
-                    while arr.get("k") == "Ref":
-                        arr = A.strip(arr["e"])
-        ops = sorted(e["v"] for e in arr.get("elems", []) if e.get("k") == "Lit")
+        op_sources = set()
+        for c, ref in regs:
+            v = A.ident(A.strip(c["args"][0]))
+            bs = [b for b in (A.enclosing_binders(reg["body"], c) or []) if b[0] == v]
+            op_sources.add(bs[-1][1] if bs else "?")
+        ops = None
+        if len(op_sources) == 1 and "?" not in op_sources:
+            src = op_sources.pop()
+            m_ = re.search(r"\[([^\]]*)\]", src)
+            if m_:
+                ops = sorted(x.strip().strip('"') for x in m_.group(1).split(","))
+            else:
+                nm = re.match(r"\(?&?(\w+)", src)
+                for it in A.load(TREE, root).get("items", []):
+                    if nm and it.get("k") in ("Const", "Static") and it.get("name") == nm.group(1) and it.get("e") is not None:
+                        arr = A.strip(it["e"])
+                        while arr.get("k") == "Ref":
+                            arr = A.strip(arr["e"])
+                        ops = sorted(e["v"] for e in arr.get("elems", []) if e.get("k") == "Lit")
         want = sorted(["==", "!=", "<", ">", "<=", ">="])
         if ops == want:
-            rule.ok("all six comparison operators are banned on trees", file=TREE, line=loops[0]["ln"])
+            rule.ok("all six comparison operators are banned on trees", file=TREE, line=regs[0][0]["ln"])
         else:
-            rule.bad("cmp|ops", "comparison operators registered to the rejecting functions are %s; Rhai needs exactly %s (an unregistered comparison silently evaluates to false)" % (ops, want), A.where(reg, loops[0]))
-        t = txt(loops[0]["body"])
-        v = A.binding_name(loops[0]["pat"])
-        if "engine.register_fn(%s,bad_cmp_tree_dyn);" % v in t and "engine.register_fn(%s,bad_cmp_dyn_tree);" % v in t:
+            rule.bad("cmp|ops", "comparison operators registered to the rejecting functions are %s; Rhai needs exactly %s (an unregistered comparison silently evaluates to false)" % (ops, want), A.where(reg, regs[0][0]))
+        pairs = []
+        for c, ref in regs:
+            mm = re.match(r"(\w+)(?:::<(.*)>)?$", ref)
+            name = mm.group(1) if mm else ref
+            targs = [t_.strip() for t_ in (mm.group(2) or "").split(",")] if mm and mm.group(2) else []
+            f = A.find_fn(TREE, name, root=root)
+            gen = re.findall(r"\b([A-Z]\w*)\b(?=\s*[,>:])", str(f["sig"].get("generics") or ""))
+            sub = dict(zip(gen, targs))
+            tys = [str(p.get("ty") or "").replace(" ", "") for p in f["sig"]["inputs"] if "pat" in p]
+            tys = [sub.get(t_, t_).split("::")[-1] for t_ in tys]
+            pairs.append(tuple(t_ for t_ in tys if t_ != "NativeCallContext"))
+            res = A.result_cases(A.inline_helpers(f)) if f.get("body") else []
+            if res and all(A.strip(v_).get("k") == "Call" and A.path_segs(A.strip(v_)["func"]) == ["Err"] for v_, _c in res):
+                rule.ok("%s returns an error" % name)
+            else:
+                rule.bad("cmp|%s" % name, "%s must return an error" % name, A.where(f))
+        if sorted(set(pairs)) == sorted([("Tree", "Dynamic"), ("Dynamic", "Tree")]) and len(pairs) == 2:
             rule.ok("both operand orders are rejected")
+            rule.ok("the two rejecting overloads take (Tree, dynamic) and (dynamic, Tree): a comparison with the tree on either side is an error")
         else:
-            rule.bad("cmp|both", "both bad_cmp_tree_dyn and bad_cmp_dyn_tree must be registered for every comparison operator", A.where(reg, loops[0]))
-    sigs = {}
-    for name in ("bad_cmp_tree_dyn", "bad_cmp_dyn_tree"):
-        f = A.find_fn(TREE, name, root=root)
-        tys = [str(p.get("ty") or "").replace(" ", "").split("::")[-1] for p in f["sig"]["inputs"] if "pat" in p]
-        sigs[name] = tuple(t_ for t_ in tys if t_ != "NativeCallContext")
-    if sorted(sigs.values()) == sorted([("Tree", "Dynamic"), ("Dynamic", "Tree")]):
-        rule.ok("the two rejecting overloads take (Tree, dynamic) and (dynamic, Tree): a comparison with the tree on either side is an error")
-    else:
-        rule.bad("cmp|signatures", "the rejecting comparison overloads have operand types %s; Rhai dispatches on them, so (Tree, Dynamic) and (Dynamic, Tree) must both exist - with one missing, `0 < tree` silently evaluates to false" % sorted(sigs.values()), "%s" % TREE)
-    for name in ("bad_cmp_tree_dyn", "bad_cmp_dyn_tree"):
-        f = A.find_fn(TREE, name, root=root)
-        # every result of the function is an Err (whatever builds the message)
-        res = A.result_cases(A.inline_helpers(f)) if f.get("body") else []
-        if res and all(A.strip(v_).get("k") == "Call" and A.path_segs(A.strip(v_)["func"]) == ["Err"] for v_, _c in res):
-            rule.ok("%s returns an error" % name)
-        else:
-            rule.bad("cmp|%s" % name, "%s must return an error" % name, A.where(f))
+            rule.bad("cmp|signatures", "the rejecting comparison overloads registered have operand types %s; Rhai dispatches on them, so (Tree, Dynamic) and (Dynamic, Tree) must both be registered for every operator - with one missing, `0 < tree` silently evaluates to false" % sorted(pairs), "%s" % TREE)
     # Tree coercion: tree, then number -> constant, then array -> union
     d = A.load(TREE, root)
     fd = [f for f in d["_fns"] if f["name"] == "from_dynamic" and (f.get("_owner") or {}).get("self_ty") == "Tree"]
@@ -981,6 +993,12 @@ def r_vector_operators(rule, root=None):
     for m in rx.finditer(body):
         a, b, ta, tb, e = m.group("a"), m.group("b"), m.group("ta"), m.group("tb"), m.group("body")
         seen.add((ta, tb))
+        # `let scalar = b as f32; a.$base_fn(scalar)`: fold the naming lets into the expression
+        for _ in range(4):
+            lm = re.match(r"let(\w+)(?::[\w$]+)?=([^;]+);(.*)$", e)
+            if not lm:
+                break
+            e = re.sub(r"(?<![\w$.])%s(?![\w(])" % re.escape(lm.group(1)), lm.group(2), lm.group(3))
         lhs = [re.escape(a)] if ta == "$ty" else [r"\$ty::from\(%sasf32\)" % re.escape(a)]
         rhs = [re.escape(b)] if tb == "$ty" else [r"%sasf32" % re.escape(b), r"\$ty::from\(%sasf32\)" % re.escape(b)]
         okb = any(re.fullmatch(l_ + r"\.\$base_fn\(" + r_ + r"\)", e) for l_ in lhs for r_ in rhs)
